@@ -36,13 +36,20 @@ REPS = {
     "t.nested.d1", "t.nested.d2", "t.merge.h", "t.merge.v", "t.merge.range", "t.rowheight.exact", "t.rowheader",
     "t.cantsplit", "t.align.right", "t.style.grid", "t.borders.partial", "t.shading", "t.cellborders.diag",
     "t.cellshading", "t.textdir", "t.appendrow", "t.insertcol0", "t.struct.tcmar",
+    "s.header.first", "s.footer.even",
     "i.size.wh", "i.align.center", "i.alt", "i.fl.tight", "i.fl.topbottom", "i.fr.square", "i.off.xy", "i.setalign.right",
     "s.size.custom", "s.size.custom.wide", "s.orient.landscape", "s.margins", "s.grid.chars", "s.header.default", "s.footer.first",
     "s.titlepg.on", "s.headerpn",
 }
+# targets below a nested table node (DeepCtors of the spec): every table feature alone on a nested table; the depth rotates
+# with the seed in the quick tier, the thorough tier takes all of them
+NESTED = ["c.ntbl.d1.2x2", "c.ntbl.d2.2x2"]
+# the section's header / footer references (multi groups of the spec: one instance per kind) and the first-page switch:
+# sets of 3 (quick) / 3..7 (thorough) of them on one section
+HF = {"s.header.default", "s.header.first", "s.header.even", "s.footer.default", "s.footer.first", "s.footer.even", "s.titlepg.on"}
 CANON_Q = {"c.fpara", "c.tbl.2x2", "c.img.png", "sect"}
 CANON_T = {"c.fpara", "c.tbl.3x3", "c.img.png", "sect"}
-MC_DUMMY = {"Lost": set(), "LostKinds": set(), "MCCtors": set(), "MCFeats": set(), "MCSect": set()}
+MC_DUMMY = {"Lost": set(), "LostKinds": set(), "Alias": set(), "MCCtors": set(), "MCFeats": set(), "MCSect": set(), "MCSectMax": 0}
 
 
 def all_tokens(ctx):
@@ -116,10 +123,14 @@ def pipeline(ctx, replay_case=None):
     ctx.tlc_mc("RoundTrip_MC.tla", "RoundTrip_MC_quick_lossy.cfg" if q else "RoundTrip_MC_thorough_lossy.cfg")
     allc = set(ctors) | {"sect"}
     if q:
-        cfg = gencfg(ctx, "gen_bfs.cfg", SingleCtors=CANON_Q | {"c.para"}, PairCtors=CANON_Q, PairFeats=REPS)
+        cfg = gencfg(ctx, "gen_bfs.cfg", SingleCtors=CANON_Q | {"c.para", NESTED[ctx.seed % len(NESTED)]}, PairCtors=CANON_Q, PairFeats=REPS)
     else:
         cfg = gencfg(ctx, "gen_bfs.cfg", SingleCtors=allc, PairCtors=CANON_T, PairFeats=set(feats), CtxMode="all")
     cases = ctx.tlc_gen("RoundTrip_MC.tla", cfg, "bfs", timeout=900)
+    # sections with three or more header / footer references (BFS, exhaustive over the subsets of HF of the tier's sizes)
+    cfg = gencfg(ctx, "gen_hf.cfg", MinF=3, MaxF=3 if q else len(HF), PairCtors={"sect"}, PairFeats=HF, FocusKinds={"sect"},
+                 PreSaves={False} if q else {False, True})
+    cases += ctx.tlc_gen("RoundTrip_MC.tla", cfg, "hf", timeout=600)
     allcases = list(cases)
     judge(ctx, cases, "bfs")
     ctx.exhaustive = True
